@@ -378,6 +378,25 @@ func runPartialJoinScenarios(rng *rand.Rand, n int, st *c06Stats, fail func(prop
 		if err != nil {
 			panic(err)
 		}
+		// the default iteration of a log opened at an earlier head is the causal past of ITS heads, newest first
+		{
+			ch := make(chan iface.IPFSLogEntry, 4096)
+			var got []string
+			if err := older.Iterator(&ipfslog.IteratorOptions{}, ch); err != nil {
+				fail("C15", "iterator-default-range", "C15:iterator-error", err.Error(), map[string]interface{}{"scenario": "default iteration of a log opened at an earlier head", "head_index": cut})
+			} else {
+				for e := range ch {
+					got = append(got, e.GetHash().String())
+				}
+				want := hashesOf(older.Values().Slice())
+				for a, b := 0, len(want)-1; a < b; a, b = a+1, b-1 {
+					want[a], want[b] = want[b], want[a]
+				}
+				if !eqStrings(got, want) {
+					fail("C15", "iterator-default-range", "C15:wrong-range", fmt.Sprintf("default iteration of a log opened at entry %d of %d emits %d entries, the past of its head has %d", cut, k, len(got), len(want)), map[string]interface{}{"scenario": "default iteration of a log opened at an earlier head", "head_index": cut})
+				}
+			}
+		}
 		// what a log opened at an earlier head publishes loads to ITS state (its heads, not the newest cached entry)
 		if mh, err := older.ToMultihash(ctx); err == nil {
 			if re, err := ipfslog.NewFromMultihash(ctx, w.api, w.idents["D"], mh, &ipfslog.LogOptions{ID: "L"}, &ipfslog.FetchOptions{}); err != nil {
